@@ -40,7 +40,7 @@ def sequenceRange : Parser (Nat × Nat) := do
   let s ← number
   tag (b!":")
   let e ← number
-  pure (s, e)
+  pure (if s ≤ e then (s, e) else (e, s))
 
 def sequenceSet : Parser (List (Nat × Nat)) :=
   sepList1 (tag (b!",")) (alt sequenceRange (map number fun n => (n, n)))
